@@ -375,6 +375,37 @@ func runC10(r *Run) {
 	} else {
 		r.Bad("R9", "anchor/monitorApprovalEvent", "", "not found")
 	}
+	r.Rule("R10", "REACH.pair-lookup-is-a-keyed-read: GetTokenPairID — the lookup every conversion, the IBC receive path and the EVM hook use to decide which pair a coin or token belongs to — and the erc20 keeper functions it calls read only the erc20 module's own store under a key for the given token: no call on another module's keeper (transfer, bank, account, EVM) and no scan over all pairs; a lookup that falls back to 'the pair of a similar asset' mints tokens of one pair against escrowed coins of another denomination")
+	if gp, ok := P.FnOK("(" + erc20K + ".Keeper).GetTokenPairID"); ok {
+		bad := ""
+		nCalls := 0
+		for fn := range moduleReach(P, gp, 3) {
+			if !pathHasSuffix(fnPkgPath(fn), "x/erc20/keeper") {
+				continue
+			}
+			eachCall(fn, func(ci CallInfo) {
+				nCalls++
+				foreign := false
+				if ci.Instr.Common().IsInvoke() {
+					if n := namedName(ci.Instr.Common().Value.Type()); strings.HasSuffix(n, "Keeper") {
+						foreign = true
+					}
+				} else if strings.HasSuffix(ci.PkgPath, "/keeper") && !pathHasSuffix(ci.PkgPath, "x/erc20/keeper") {
+					foreign = true
+				}
+				if ci.Name == "Iterator" || ci.Name == "ReverseIterator" || ci.Name == "KVStorePrefixIterator" || ci.Name == "IterateTokenPairs" || ci.Name == "GetTokenPairs" {
+					foreign = true
+				}
+				if foreign && bad == "" {
+					bad = ci.String() + " at " + P.Pos(instrPos(ci.Instr))
+				}
+			})
+		}
+		r.Check(bad == "" && nCalls >= 3, "R10", fnID(gp)+"#keyed-read-only", P.Pos(fnPos(gp)), fmt.Sprintf("%d calls below GetTokenPairID, none on another keeper, none iterating", nCalls),
+			"the pair lookup consults "+bad+": the pair is no longer decided by the given token's own registry entry, so a coin or token that is not registered can resolve to another asset's pair (tokens minted against an escrow of a different denomination)")
+	} else {
+		r.Bad("R10", "anchor/GetTokenPairID", "", "not found")
+	}
 	r.Rule("R6", "PATH+FLOW.hook-guards: in PostTxProcessing the payout (MintCoins / CallEVM burn / SendCoinsFromModuleToAccount) is reachable only over the passing edges of: hook enabled (EnableErc20, EnableEVMHook), event name == Transfer, positive amount, registered pair found, recipient topic == ModuleAddress, pair.Enabled; the coin amount derives from the event data, the denom from the pair, the payee from topic 1, the burned contract is the log's address")
 	if fn, ok := P.FnOK("(" + erc20K + ".Keeper).PostTxProcessing"); ok {
 		isPayout := isCallMatching(func(ci CallInfo) bool {
